@@ -1,8 +1,8 @@
 #!/bin/bash
 # Confirms a seeded change in its scratch worktree: demo fails with it, passes without it, suite passes with it.
-# usage: verify_mutant.sh <worktree> <seed-id>
+# usage: verify_mutant.sh <worktree> <seed-id> [regex of the demonstration's own test names, excluded from the suite verdict]
 set -u
-WT=$1; ID=$2
+WT=$1; ID=$2; EXCL=${3:-^\$}
 cd "$WT" || exit 2
 DEMO=$(python3 -c "import json;print(json.load(open('_mutant/meta.json'))['demo_cmd'])")
 echo "== demo with change (must fail)"
@@ -19,7 +19,7 @@ mkdir -p _mutant/aside
 for f in nexosim/tests/mutant_demo*.rs; do [ -f "$f" ] && mv "$f" _mutant/aside/; done
 cargo test --workspace --no-fail-fast --offline > _mutant/suite.log 2>&1
 for f in _mutant/aside/*.rs; do [ -f "$f" ] && mv "$f" nexosim/tests/; done
-FAILED=$(grep -E "^test .* FAILED" _mutant/suite.log | sed 's/ \.\.\. FAILED//' | tr '\n' ';')
+FAILED=$(grep -E "^test .* FAILED" _mutant/suite.log | grep -v "^test result" | grep -Ev "$EXCL" | sed 's/ \.\.\. FAILED//' | tr '\n' ';')
 echo "demo_with_rc=$W demo_without_rc=$WO suite_failed_non_demo=[$FAILED]"
 mkdir -p /verif/seeded/$ID
 cp _mutant/patch.diff /verif/seeded/$ID/patch.diff
